@@ -15,7 +15,7 @@ ENGINES = [
                        "system on the edited assignment with forward re-derivation of dependent hints; shadow lies "
                        "re-executed through the library with ignore_errors on); the verifier is constraint evaluation"},
     {"name": "tracesim", "path": "sim/tracesim.py",
-     "serves_properties": ["C01", "C04", "C06", "C07", "C08", "C10", "C11"],
+     "serves_properties": ["C01", "C04", "C06", "C07", "C08", "C09", "C10", "C11"],
      "kind_free_text": "in-process deterministic simulation: seeded plan (program + inputs + fault schedule) "
                        "generated as data, compiled to Python source, executed against a fresh import of the real "
                        "pysnark with the real backend module wrapped by a recorder; invariants after every event"},
@@ -39,6 +39,12 @@ _P = "seeded search over lying-prover fault schedules (deterministic simulation,
 _X = "seeded search over crash points x termination modes x configurations, one fresh interpreter per run (deterministic simulation, crash injection)"
 
 CHECK_META = {
+    "C09": {"engine": "tracesim", "design_ref": "3/C09", "technique": _T + "; native-control-flow twin as reference model",
+            "text": "histories of branch-stack events (enter / elif / else / exit / loop iteration / break) generated as "
+                    "plans; the same plan is emitted as oblivious code and as native control flow on plain ints; final "
+                    "variables compared, constraints evaluated, structure compared across inputs; sampling",
+            "note": "conditions are made secret-typed by construction; bounds of _range are taken from the non-negative "
+                    "inputs; checkstopmax is modelled as 'raises iff the loop was still running at the cap'"},
     "C07": {"engine": "tracesim+proversim", "design_ref": "3/C07", "technique": _T + "; twin executions; lying prover on dead-region hints",
             "text": "guards as fault-containment regions: domain faults injected inside false-guard regions at every "
                     "nesting level (no value-caused exception may escape, trace stays satisfied, lies on dead hints "
